@@ -385,6 +385,33 @@ func ruleDebuggerTable(c *Ctx) {
 		})
 		c.Ob("B1-debugger-table", "fast/debug.Debugger."+n, fd, got == want[n], fmt.Sprintf("with the stop test `CallDepth %s DebugDepth` the command requests depth class %s (documented behaviour needs %s: any = every statement, rel:1 = same or shallower depth, rel:0 = shallower depth, none = breakpoints only)", map[int]string{0: "<", 1: "<="}[adj], got, want[n]))
 	}
+	// a DebugOp produced without consulting the user (synthetic statements are skipped silently) keeps the current
+	// stepping depth: every DebugOp literal outside the command functions has Depth = run.DebugDepth
+	nsilent := 0
+	for _, fdl := range c.P.FuncsOf("fast/debug") {
+		fdl := fdl
+		name := fdl.Name.Name
+		if strings.HasPrefix(name, "cmd") {
+			continue
+		}
+		ast.Inspect(fdl.Body, func(nd ast.Node) bool {
+			cl, ok := nd.(*ast.CompositeLit)
+			if !ok || dinfo.TypeOf(cl) == nil || !isNamedType(types.Unalias(dinfo.TypeOf(cl)), "fast", "DebugOp") || len(cl.Elts) == 0 {
+				return true
+			}
+			d := cl.Elts[0]
+			if kv, ok := d.(*ast.KeyValueExpr); ok {
+				d = kv.Value
+			}
+			nsilent++
+			_, keeps := fieldSel(dinfo, d, "DebugDepth")
+			c.Ob("B1-debugger-table", "fast/debug."+name+"/silent-op", cl, keeps, "an operation returned without asking the user leaves the stepping depth unchanged (Depth = run.DebugDepth)")
+			return true
+		})
+	}
+	if nsilent == 0 {
+		c.Ob("B1-debugger-table", "fast/debug/silent-op", nil, false, "no silent debugger operation found: anchor missing")
+	}
 	// applyDebugOp: Depth > 0 turns single-stepping on, otherwise off, and records the depth
 	ap := c.P.Func("fast.Run.applyDebugOp")
 	okAp := false
@@ -659,4 +686,147 @@ func ruleDebugTermination(c *Ctx) {
 		}
 	}
 	c.Ob(rule, "fast.singleStep/end-of-code", ss, okA || okB, "a body that falls off its end terminates while single-stepping: the sentinel signals the return independently of Signals.Debug, or singleStep raises SigReturn when env.IP == len(env.Code)-1")
+}
+
+// ruleDebugCompRecorded (N4): the compiler recorded in a frame for the debugger (Env.DebugComp, directly or through
+// the debugComp parameter of newEnv4Func) is nil, or a *Comp whose every non-nil assignment is controlled by a
+// test of exactly base.OptDebugger. A frame whose compiler is not recorded is invisible to step/next/finish.
+func ruleDebugCompRecorded(c *Ctx) {
+	rule := "N4-debugcomp-recorded"
+	pk := c.P.Pkg("fast")
+	info := pk.TypesInfo
+	// condition tests exactly OptDebugger
+	testsDebugger := func(cond ast.Expr) bool {
+		var opts []string
+		ast.Inspect(cond, func(n ast.Node) bool {
+			if id, ok := n.(*ast.Ident); ok {
+				if cst, ok := info.Uses[id].(*types.Const); ok && strings.HasPrefix(cst.Name(), "Opt") {
+					opts = append(opts, cst.Name())
+				}
+			}
+			return true
+		})
+		if len(opts) != 1 || opts[0] != "OptDebugger" {
+			return false
+		}
+		b, ok := unparen(cond).(*ast.BinaryExpr)
+		if !ok || b.Op != token.NEQ {
+			return false
+		}
+		v, isC := constInt(info, b.Y)
+		return isC && v == 0
+	}
+	guardedBy := func(fd *ast.FuncDecl, n ast.Node) bool {
+		stack := enclosingStack(fd.Body, n)
+		for i, anc := range stack {
+			if ifs, ok := anc.(*ast.IfStmt); ok && i+1 < len(stack) && stack[i+1] == ast.Node(ifs.Body) && testsDebugger(ifs.Cond) {
+				return true
+			}
+		}
+		return false
+	}
+	nsites := 0
+	seen := map[string]bool{}
+	pe := provFor(c, "fast", false)
+	var checkValueIn func(fd *ast.FuncDecl, what string, at ast.Node, e ast.Expr, depth int)
+	checkValueIn = func(fd *ast.FuncDecl, what string, at ast.Node, e ast.Expr, depth int) {
+		fk := funcKey(pk, fd)
+		{
+			e = unparen(e)
+			if exprString(e) == "nil" {
+				return
+			}
+			nsites++
+			key := fk + "/" + what + " " + exprString(e)
+			if seen[key] {
+				return
+			}
+			seen[key] = true
+			if guardedBy(fd, at) {
+				c.Ob(rule, key, at, true, "a compiler is recorded in the frame only under `Options&base.OptDebugger != 0`")
+				return
+			}
+			id := identOf(e)
+			if id == nil {
+				c.Ob(rule, key, at, false, "the recorded compiler is not a plain variable")
+				return
+			}
+			o := info.Uses[id]
+			// a parameter of a helper: judged at every static caller
+			if pi := paramIdxOf(info, fd, o); pi >= 0 && depth < 3 {
+				callers := pe.callers[info.Defs[fd.Name]]
+				if len(callers) > 0 {
+					for _, cs := range callers {
+						if pi < len(cs.call.Args) {
+							checkValueIn(cs.fd, "arg of "+fd.Name.Name, cs.call, cs.call.Args[pi], depth+1)
+						}
+					}
+					return
+				}
+			}
+			// a local variable: every assignment of a non-nil value is guarded by OptDebugger
+			if v, ok := o.(*types.Var); ok && v.Parent() != nil && v.Parent() != pk.Types.Scope() && paramIdxOf(info, fd, o) < 0 && !isRecv(info, fd, o) {
+				okAll, n := true, 0
+				ast.Inspect(fd.Body, func(nd ast.Node) bool {
+					as, ok := nd.(*ast.AssignStmt)
+					if !ok {
+						return true
+					}
+					for i, l := range as.Lhs {
+						if lid := identOf(l); lid != nil && (info.Uses[lid] == o || info.Defs[lid] == o) && i < len(as.Rhs) && exprString(as.Rhs[i]) != "nil" {
+							n++
+							if !guardedBy(fd, as) {
+								okAll = false
+							}
+						}
+					}
+					return true
+				})
+				c.Ob(rule, key, at, okAll && n > 0, fmt.Sprintf("%s is nil unless assigned under `Options&base.OptDebugger != 0` (%d assignments)", id.Name, n))
+				return
+			}
+			// the compiler itself (receiver / parameter): the write must be guarded
+			c.Ob(rule, key, at, guardedBy(fd, at), "a compiler is recorded in the frame only under `Options&base.OptDebugger != 0`")
+		}
+	}
+	for _, fd := range c.P.FuncsOf("fast") {
+		fd := fd
+		fk := funcKey(pk, fd)
+		if fk == "fast.newEnv4Func" {
+			continue // forwards its parameter; the callers are checked
+		}
+		checkValue := func(what string, at ast.Node, e ast.Expr) { checkValueIn(fd, what, at, e, 0) }
+		ast.Inspect(fd.Body, func(nd ast.Node) bool {
+			switch x := nd.(type) {
+			case *ast.AssignStmt:
+				for i, l := range x.Lhs {
+					if _, ok := fieldSel(info, l, "DebugComp"); ok && i < len(x.Rhs) {
+						checkValue("DebugComp =", x, x.Rhs[i])
+					}
+				}
+			case *ast.CallExpr:
+				if fn := calleeOf(info, x); fn != nil && funcFullName(fn) == "fast.newEnv4Func" && len(x.Args) == 4 {
+					checkValue("newEnv4Func", x, x.Args[3])
+				}
+			}
+			return true
+		})
+	}
+	if nsites < 500 {
+		c.Ob(rule, "sites", nil, false, fmt.Sprintf("%d sites recording a compiler found, at least 500 expected: anchor missing", nsites))
+	}
+}
+
+func isRecv(info *types.Info, fd *ast.FuncDecl, o types.Object) bool {
+	if fd.Recv == nil {
+		return false
+	}
+	for _, f := range fd.Recv.List {
+		for _, nm := range f.Names {
+			if info.Defs[nm] == o {
+				return true
+			}
+		}
+	}
+	return false
 }
